@@ -131,8 +131,9 @@ fn gen_kind(s: &mut Incent, rng: &mut Rng, ctx: &mut Ctx, o: &crate::scen::incen
     };
     let mut fault = Fault::None;
     if s.cfg.faults && rng.chance(1, 9) {
-        fault = match rng.below(3) {
+        fault = match rng.below(4) {
             0 => Fault::Bank(rng.range(1, 3) as u32),
+            1 => Fault::Query(rng.range(1, 5) as u32),
             _ => Fault::SubCall(rng.range(1, 11) as u32),
         };
     }
